@@ -70,7 +70,7 @@ def run_single(case):
     if not ok:
         kind = 'WRONG_POLARITY' if (len(got) == 1 and got[0]['value'] is not pol) else 'NOT_ONE_ENTITY' if len(got) != 1 else 'WRONG_SPAN'
         vs.append(V(kind, {'query': q, 'alternative': case['alt'], 'expected': {'span': [pos, pos + len(case['written']) - 1], 'value': pol},
-                           'got': got}, bucket=kind + ':' + case['alt']))
+                           'got': got}, bucket=kind + (':word' if case['alt'].isascii() else ':emoji')))
     for g in got:
         if not score_ok(g):
             vs.append(V('SCORE_RANGE', {'query': q, 'got': g}, bucket='SCORE'))
